@@ -362,11 +362,127 @@ def scn_native(T, case):
     T.prove("C20.native.no_optimizer_process_left_running", all(p.poll() is not None for p in procs))
 
 
+# ------------------------------------------------------------------------------------ the pipe communicator against an abstract OS
+def cases_comm(tier):
+    for fifo_exists in (True, False):
+        for script in (("write-ready", "read-message"), ("write-not-ready",), ("read-timeout",), ("write-ready", "write-ready", "read-message", "read-timeout"), ("read-partial",)):
+            yield "fifos-exist=%s/%s" % (fifo_exists, ",".join(script)), {"exists": fifo_exists, "script": list(script)}
+
+
+def scn_comm(T, case):
+    """_JSONPipeCommunicator against an abstract OS (os / selectors by library contract).  Safety clauses that 'never hangs' rests
+    on: no primitive that can block without bound is ever called - every FIFO is opened with O_NONBLOCK (opening a FIFO for writing
+    blocks until a reader exists, i.e. for ever if the peer is dead) and every select carries the finite timeout -, a message is
+    written only when the selector reports the pipe writable, exactly once and complete with its delimiter, a read returns exactly
+    the message before the delimiter or None, and every descriptor opened is closed on exit."""
+    import json
+    import os as real_os
+    import selectors as real_selectors
+
+    log, opened, closed = [], [], []
+    script = list(case["script"])
+    state = {"next_fd": 10, "ready": None, "inbox": ""}
+
+    class Path_:
+        def __init__(self, name):
+            self.name = name
+
+        def exists(self):
+            return case["exists"]
+
+    def os_open(path, flags, *a):
+        fd = state["next_fd"]
+        state["next_fd"] += 1
+        opened.append((fd, path.name, flags))
+        return fd
+
+    class Selector:
+        def __init__(self):
+            self.registered, self.closed = {}, False
+
+        def register(self, fd, events):
+            self.registered[fd] = events
+
+        def select(self, timeout=None):
+            log.append(("select", timeout))
+            r = state["ready"]
+            return [] if r is None else [(types.SimpleNamespace(fd=r[0]), r[1])]
+
+        def close(self):
+            self.closed = True
+
+    class File:
+        def __init__(self, text):
+            self.lines = text.splitlines(keepends=True)
+
+        def readline(self):
+            return self.lines.pop(0) if self.lines else ""
+
+        def __enter__(self):
+            return self
+
+        def __exit__(self, *a):
+            closed.append("dup")
+
+    sel = Selector()
+    fake_os = types.SimpleNamespace(
+        O_RDONLY=real_os.O_RDONLY, O_WRONLY=real_os.O_WRONLY, O_NONBLOCK=real_os.O_NONBLOCK,
+        open=os_open, close=lambda fd: closed.append(fd), mkfifo=lambda p, *a: log.append(("mkfifo", p.name)),
+        write=lambda fd, data: log.append(("write", fd, data)) or len(data), dup=lambda fd: ("dup", fd),
+        fdopen=lambda fd, *a, **k: File(state["inbox"]), kill=lambda *a: None)
+    fake_sel = types.SimpleNamespace(DefaultSelector=lambda: sel, EVENT_READ=real_selectors.EVENT_READ, EVENT_WRITE=real_selectors.EVENT_WRITE, BaseSelector=object)
+    stubs = {(MX, "os"): fake_os, (MX, "selectors"): fake_sel}
+    if T.symbolic:
+        sh = T.shadow([MX], stubs)
+        cls = T.under_contract(sh, MX, "_JSONPipeCommunicator", stubs)
+        for q in ("__init__", "__enter__", "__exit__", "read", "write"):
+            T.under_contract(sh, MX, "_JSONPipeCommunicator." + q, stubs)
+        restore = None
+    else:
+        import ropt.plugins.optimizer.external as real
+
+        restore = (real, real.os, real.selectors)
+        real.os, real.selectors = fake_os, fake_sel
+        cls = real._JSONPipeCommunicator
+    try:
+        timeout = 0.25
+        comm = cls(Path_("to-parent"), Path_("to-child"), timeout)
+        T.prove("C20.comm.missing_fifos_are_created", sorted(e[1] for e in log if e[0] == "mkfifo") == ([] if case["exists"] else ["to-child", "to-parent"]))
+        msg = {"evaluation": {"variables": [0.5, 1.5], "return_functions": True}}
+        with comm:
+            for step in script:
+                n_sel, n_wr = sum(1 for e in log if e[0] == "select"), sum(1 for e in log if e[0] == "write")
+                if step.startswith("write"):
+                    wfd = next((fd for fd, name, fl in opened if name == "to-child"), state["next_fd"])
+                    state["ready"] = (wfd, real_selectors.EVENT_WRITE) if step == "write-ready" else None
+                    ok = comm.write(msg)
+                    writes = [e for e in log if e[0] == "write"][n_wr:]
+                    if step == "write-ready":
+                        T.prove("C20.comm.write_sends_the_whole_message_once_when_the_pipe_is_writable", ok is True and len(writes) == 1
+                                and writes[0][2].decode().split("\n")[-2] == cls.DELIMITER and json.loads(writes[0][2].decode().rsplit(cls.DELIMITER, 1)[0]) == msg)
+                    else:
+                        T.prove("C20.comm.nothing_is_written_and_false_returned_when_the_pipe_is_not_writable", ok is False and writes == [])
+                else:
+                    rfd = next(fd for fd, name, fl in opened if name == "to-parent")
+                    state["ready"] = None if step == "read-timeout" else (rfd, real_selectors.EVENT_READ)
+                    state["inbox"] = {"read-message": json.dumps({"result": [1, 2]}) + "\n" + cls.DELIMITER + "\n", "read-partial": '{"result": [1,', "read-timeout": ""}[step]
+                    got = comm.read()
+                    T.prove("C20.comm.read_returns_the_message_before_the_delimiter_or_none", got == ({"result": [1, 2]} if step == "read-message" else None))
+                T.prove("C20.comm.every_wait_carries_the_finite_timeout", all(e[1] == timeout for e in log if e[0] == "select") and sum(1 for e in log if e[0] == "select") == n_sel + 1)
+        T.prove("C20.comm.no_open_can_block_every_fifo_is_opened_non_blocking", all(fl & real_os.O_NONBLOCK for _, _, fl in opened) and len(opened) >= 1)
+        T.prove("C20.comm.read_end_is_the_own_pipe_and_write_end_the_peers", all((name == "to-parent") == ((fl & 3) == real_os.O_RDONLY) for _, name, fl in opened))
+        T.prove("C20.comm.every_descriptor_is_closed_on_exit", sorted(fd for fd in closed if isinstance(fd, int)) == sorted(fd for fd, _, _ in opened) and sel.closed)
+    finally:
+        if restore:
+            restore[0].os, restore[0].selectors = restore[1], restore[2]
+
+
 SCENARIOS = [
     Scenario("start_request_loop", scn_start, cases_start, {"quick": 30, "thorough": 200}),
     Scenario("child_side_forwarding", scn_child, cases_child, {"quick": 2, "thorough": 10}),
     Scenario("wrapper_properties", scn_props, cases_props, {"quick": 1, "thorough": 1}),
     Scenario("native_transport_and_processes", scn_native, cases_native, {"quick": 5, "thorough": 1}),
+    Scenario("pipe_communicator_against_abstract_os", scn_comm, cases_comm, {"quick": 1, "thorough": 1}),
 ]
 
 MANIFEST = {
